@@ -51,7 +51,7 @@ func init() {
 		Props:      []string{"C16"},
 		Floor:      3,
 		Run:        ruleCL5,
-		Exceptions: []string{"(*collection).Close: <-m.doneMergerCh and <-m.donePersisterCh – both goroutines exit once stopCh is closed (CL-6)"},
+		Exceptions: []string{"receives from doneMergerCh / donePersisterCh (in Close or a helper of it) – both goroutines exit, closing these channels, once stopCh is closed (CL-6)"},
 	})
 	register(&Rule{
 		ID: "CL-6",
@@ -491,10 +491,8 @@ func collectionMethod(f *ssa.Function) bool {
 func ruleCL5(c *Ctx) []*Ob {
 	o := newObs(c, "CL-5")
 	fStop := c.Field("collection", "stopCh")
-	tableOK := map[string]bool{
-		"(*collection).Close|doneMergerCh":    true,
-		"(*collection).Close|donePersisterCh": true,
-	}
+	// proven-ready channels: closed by the exiting background goroutine, which exits once stopCh is closed (CL-6)
+	tableOK := map[string]bool{"doneMergerCh": true, "donePersisterCh": true}
 	for _, f := range c.Funcs {
 		if !collectionMethod(f) {
 			continue
@@ -503,15 +501,19 @@ func ruleCL5(c *Ctx) []*Ob {
 		eachInstr(f, func(i ssa.Instruction) {
 			switch x := i.(type) {
 			case *ssa.Send:
-				o.add(fn, "send on "+accessPath(x.Chan), c.instrPos(i), false,
+				sname := "local " + types.TypeString(x.Chan.Type(), shortQual)
+				if fv, _ := loadedField(x.Chan); fv != nil {
+					sname = fv.Name()
+				}
+				o.add(fn, "send on "+sname, c.instrPos(i), false,
 					"a bare channel send: if nobody receives (collection closed, merger stopped or disabled) the caller blocks forever")
 			case *ssa.UnOp:
 				if x.Op != token.ARROW {
 					return
 				}
-				name := accessPath(x.X)
+				name := "local " + types.TypeString(x.X.Type(), shortQual)
 				if fv, _ := loadedField(x.X); fv != nil {
-					if tableOK[fn+"|"+fv.Name()] {
+					if tableOK[fv.Name()] {
 						o.trivial(fn, "receive from "+fv.Name(), c.instrPos(i), "table: the sender closes this channel once stopCh is closed")
 						return
 					}
